@@ -349,6 +349,21 @@ def real_frame(case):
         with np.errstate(all='ignore'), warnings.catch_warnings():
             warnings.simplefilter('ignore')
             out = tr.construct_new_features(df.copy())
+            if case.get('via') == 'pipeline':
+                # the same frame through the pipeline's entry point (core_ranking.enrich_with_transformations with the CLI's
+                # `args`): what it returns must be what the transformer object returns – the same columns, the same cells
+                import types as _t
+
+                from outrank import core_ranking as cr
+                lg = logging.getLogger('c12-null')
+                lg.disabled = True
+                args = _t.SimpleNamespace(transformers=case['preset'], missing_value_symbols=',{}', label_column='label')
+                out2 = cr.enrich_with_transformations(df.copy(), set(case['cols']), lg, args)
+                if list(out2.columns) != list(out.columns) or not out2.astype(str).equals(out.astype(str)):
+                    only1 = [c for c in out.columns if c not in set(out2.columns)][:4]
+                    only2 = [c for c in out2.columns if c not in set(out.columns)][:4]
+                    return {'pipeline_differs': f'enrich_with_transformations returns {out2.shape[1]} columns, the transformer object {out.shape[1]}; '
+                                                f'missing {only1}, extra {only2}'}
     except Exception as ex:                                  # noqa: BLE001
         return {'exc': f'{type(ex).__name__}: {ex}'}
     ncol = len(data)
@@ -557,7 +572,7 @@ def fmt(rng, x):
 
 
 def gen_column(rng):
-    kind = rng.choice(['ints', 'ints', 'probs', 'probs', 'reals', 'reals', 'huge', 'bigint', 'tiny', 'zeros', 'empties', 'quoted', 'thresholds',
+    kind = rng.choice(['ints', 'ints', 'probs', 'probs', 'reals', 'reals', 'huge', 'bigint', 'tiny', 'zeros', 'empties', 'one+empties', 'quoted', 'thresholds',
                        'majority', 'majority', 'nanbound', 'nanbound', 'constant', 'special'])
     n = rng.choice([1, 2, 3, 4, 5, 5, 8, 10, 12, 20, 20, 25, 40])
     if kind == 'ints':
@@ -586,6 +601,10 @@ def gen_column(rng):
         cells = [rng.choice(['0', '0', '0.0', '-0.0', '', '0', fmt(rng, rng.randint(-3, 9))]) for _ in range(n)]
     elif kind == 'empties':
         cells = [rng.choice(['', '', '""', fmt(rng, rng.randint(-5, 50)), fmt(rng, rng.uniform(0, 2))]) for _ in range(n)]
+    elif kind == 'one+empties':
+        # one fixed number and empty cells (an empty cell is the number 0 for the transformers, not a missing value)
+        v = fmt(rng, rng.choice([4, 9, 2.5, 100, 7]))
+        cells = [v if rng.random() < 0.5 else rng.choice(['', '', '{}'][:2]) for _ in range(n)]
     elif kind == 'quoted':
         cells = ['"' + fmt(rng, rng.choice([rng.randint(-9, 99), rng.uniform(-2, 2)])).replace('"', '') + '"' for _ in range(n)]
     elif kind == 'thresholds':
@@ -649,7 +668,7 @@ def gen_frame(rng, thorough):
         cols[pool[j]] = c2
         kinds.append(k2)
     other = {'label': [str(rng.randint(0, 1)) for _ in range(n)]} if rng.random() < 0.5 else {}
-    return {'kind': 'frame', 'preset': preset, 'cols': cols, 'other': other, 'kinds': kinds}
+    return {'kind': 'frame', 'preset': preset, 'cols': cols, 'other': other, 'kinds': kinds, 'via': rng.choice(['object', 'pipeline'])}
 
 
 def gen_long_frame(rng):
@@ -689,6 +708,10 @@ def eval_frames(ctx: Ctx, cases, oracle_only=False):
             ctx.count('column:' + kd)
         ctx.count('rows:%d' % len(next(iter(c['cols'].values()))))
         rec = {'case': c, 'real': real, 'cols': []}
+        if 'pipeline_differs' in real:
+            ctx.oracle_fail('pipeline-entry', f'preset={c["preset"]!r}, columns {c["cols"]}: {real["pipeline_differs"]}',
+                            {'kind': 'frame', 'preset': c['preset'], 'cols': c['cols'], 'other': c.get('other', {}), 'via': 'pipeline'})
+            continue
         work.append(rec)
         if 'exc' in real:
             continue
